@@ -433,7 +433,11 @@ def mon_c04(m, payload):
                 pexp[y] = arev + (p_el * prices['ElecPrice'][y] + p_ht * prices['HeatPrice'][y]) / 1e6 - Coam
             i = mv.first_mismatch(pcf, pexp, 1e-9, 1e-9)
             if i is not None:
-                fails.append(('addon/cashflow', f'project-with-add-ons cash flow year {i}: reported {pcf[i]!r}, expected {pexp[i]!r}'))
+                # with S-DAC-GT in the same run the key is its own: that extension lowers the plant's yearly energy after the add-on block
+                # has computed its project cash flow from the earlier, higher series (a recorded finding), and must not hide other mismatches
+                sdac = bool(V(ec, 'DoSDACGTCalculations')) if mv.has(ec, 'DoSDACGTCalculations') else False
+                fails.append(('addon+sdacgt/cashflow' if sdac else 'addon/cashflow', f'project-with-add-ons cash flow year {i}: reported {pcf[i]!r}, expected {pexp[i]!r}'
+                              + (' (S-DAC-GT in the same run)' if sdac else '')))
             i = mv.first_mismatch(pcum, R.running_sum(pcf), 1e-9, 1e-9)
             if i is not None:
                 fails.append(('addon/cumulative', f'add-on cumulative year {i}: {pcum[i]!r} vs running sum {R.running_sum(pcf)[i]!r}'))
